@@ -1712,7 +1712,7 @@ def run(ctx: Ctx):
     H2.run_all(ctx)            # pass 2: interleavings, argument combinations, error paths, grad modes, duck types, copies, memory, sizes
     run_corpus(ctx, n_items=ctx.pick(10, 24), dtypes=("float64", "float32"), fd_every=ctx.pick(3, 1))
     # pass 4 (20): exact coincidences (quarter turns |v| == |w|, theta == 0.05 / eps, |sigma| == theta, Y == X, p == t, ...)
-    run_corpus(ctx, n_items=12, dtypes=("float64", "float32"), fd_every=ctx.pick(2, 1), rows_fn=H4.tie_values, stream="ties")
+    run_corpus(ctx, n_items=12, dtypes=("float64", "float32"), fd_every=ctx.pick(3, 1), rows_fn=H4.tie_values, stream="ties")
     run_reuse(ctx)
     run_stale(ctx)
     run_views(ctx)
@@ -1723,7 +1723,7 @@ def run(ctx: Ctx):
     H4.run_large(ctx)          # (19), (28): 2^14+1 / 2^16+1 items, kernel switch-over sizes
     # seeded part
     run_local(ctx, ctx.pick(1, 8))
-    run_prog(ctx, ctx.pick(80, 1600))
+    run_prog(ctx, ctx.pick(64, 1600))
     run_routes(ctx, ctx.pick(16, 240))
     from . import util_autograd_batch as HB
     HB.run_batch(ctx, ctx.pick(30, 400))   # pass 3: the model's own batched / broadcasting layer (c04.bcall) against the code
